@@ -6,7 +6,7 @@
 set -u
 export GOFLAGS=-mod=mod GOPROXY=off GOSUMDB=off GOTOOLCHAIN=local
 ROOT=$(cd "$(dirname "$0")/.." && pwd)
-SRC=$1; NAME=$2; PROP=$3; shift 3
+SRC=$(readlink -f "$1"); NAME=$2; PROP=$3; shift 3
 TIER=${TIER:-quick}
 WT=$(mktemp -d /tmp/seedwt.XXXXXX); OUT=$(mktemp -d /tmp/seedout.XXXXXX)
 cleanup() { git -C /repo worktree remove --force "$WT" >/dev/null 2>&1; rm -rf "$WT" "$OUT"; }
@@ -34,7 +34,9 @@ for id in "$@"; do
   fi
 done
 DST="$ROOT/seeded/$NAME"; mkdir -p "$DST"
-cp "$SRC/patch.diff" "$SRC/demo_test.go" "$DST/"; [ -f "$SRC/notes.md" ] && cp "$SRC/notes.md" "$DST/notes.md"
+if [ "$SRC" != "$(readlink -f "$DST")" ]; then
+  cp "$SRC/patch.diff" "$SRC/demo_test.go" "$DST/"; [ -f "$SRC/notes.md" ] && cp "$SRC/notes.md" "$DST/notes.md"
+fi
 python3 - "$DST" "$NAME" "$PROP" "$VALID" "$B" "$S" "$D0" "$D1" "[${RES%,}]" <<'PY'
 import json,sys,os
 dst,name,prop,valid,b,s,d0,d1,res=sys.argv[1:]
